@@ -1,9 +1,13 @@
 import Driver.Util
 import Hv.Conc.Linearize
+import Hv.Conc.Stale
 
 /-! Line-protocol driver of domain C09 (same ops and reply format as `/verif/harness/c09.go`).
     Threads are the calls of `Hv.Lin`; in immediate-write mode the chronicler's two guard sessions
-    inside `Save` (encode, then `FilePointerCallbackFunction`) are environment sessions of the model. -/
+    inside `Save` (encode, then `FilePointerCallbackFunction`) are environment sessions of the model.
+    Object identity (which treasure object is stored under the key, who works on an orphan) is `Hv.Stale`, executed
+    next to `Hv.Lin`: every `fetch` / `del` / `step` also performs the corresponding `Hv.Stale.step`s, and "absent",
+    "works on a replaced object" and the stale-object flag are read off that state. -/
 namespace Driver.C09
 open Hv.Lin Hv.Guard
 
@@ -14,6 +18,8 @@ structure Th where
   /-- environment session this call's save is waiting for (0 = none) and sessions still to open -/
   wsid : Nat
   wleft : Nat
+  /-- the file writer of this call has collected the write list -/
+  wstarted : Bool := false
 
 structure DSt where
   resets : Bool
@@ -25,6 +31,33 @@ structure DSt where
   deleted : Bool        -- the object was removed from the key beacon (stale-object scenario)
   resurrected : Bool
   cleared : Bool        -- its content was cleared by the delete (persisted record)
+  /-- fact: the body re-checks its object under the guard and starts over on a fresh one -/
+  recheck : Bool
+  fresh : Bool          -- a re-checking call replaced the deleted object by a new one
+  /-- immediate-write mode: calls whose file writer is pending, in the order of their in-save release; the writers
+      run one after the other (the harness starts a writer only when no earlier one is pending) -/
+  wq : List Nat := []
+  /-- the object-identity model, run next to `s`; deletes are calls 20, 21, … -/
+  st : Hv.Stale.St := Hv.Stale.init 5
+  ndel : Nat := 0
+  /-- the record is in the swamp's list of treasures waiting for the file writer -/
+  dirtyW : Bool := false
+  /-- who stamped the record's UpdatedBy last (every call does, between taking the guard and reading the value);
+      what each finished call found there when it built its response; fact: the response metadata is read after Save -/
+  lastBy : String := ""
+  byOf : List (Nat × String) := []
+  respAfterSave : Bool := false
+  /-- mode setx: fact (gateway Set repeats its existence tests under the record guard), the operation table
+      (call id, kind, argument), parked calls and the next id for synchronous calls -/
+  setUnderGuard : Bool := true
+  sops : List (Nat × String × Int) := []
+  sparked : List (String × Nat) := []
+  snext : Nat := 10
+  /-- key "p" (field patches): its own register; fact: PatchFields decides from nothing it read before the guard -/
+  sp : Hv.Lin.St := Hv.Lin.init 0
+  patchGuarded : Bool := true
+  /-- calls whose decision was taken before the guard (they run with the defective body shape) -/
+  searly : List Nat := []
 
 def tidOf (n : String) : Option Nat :=
   match n with | "A" => some 1 | "B" => some 2 | "C" => some 3 | "D" => some 4 | _ => none
@@ -32,6 +65,32 @@ def tidOf (n : String) : Option Nat :=
 def incOf (t : Nat) : Int := match t with | 1 => 1 | 2 => 10 | 3 => 100 | _ => 1000
 
 def op : Nat → Int → Int := fun t v => v + incOf t
+
+/-! object identity: `Hv.Stale` -/
+
+def skinds : Nat → Hv.Stale.Kind := fun t => if t ≥ 20 then .del else .inc (incOf t)
+
+def scfgOf (d : DSt) : Hv.Stale.Cfg := { recheck := d.recheck }
+
+def sstep1 (d : DSt) (t : Nat) : Option Hv.Stale.St := Hv.Stale.step (scfgOf d) (d.kind == "p0") skinds d.st t
+
+/-- perform `Hv.Stale` steps of call `t` until its pc is `goal` (or it cannot move) -/
+def suntil (fuel : Nat) (d : DSt) (t goal : Nat) : DSt :=
+  match fuel with
+  | 0 => d
+  | fuel + 1 =>
+    if (d.st.th t).pc == goal then d else
+    match sstep1 d t with
+    | some st' => suntil fuel { d with st := st' } t goal
+    | none => d
+
+def sabsent (d : DSt) : Bool := (Hv.Stale.final d.st).isNone
+
+/-- the completed operations cannot be put into a serial order that explains them and the final state
+    (checked in completion order and in the reverse one: at most two operations are involved here) -/
+def sbroken (d : DSt) : Bool :=
+  let ok := fun (l : List Hv.Stale.Entry) => Hv.Stale.specReplay skinds (some 5) l == some (Hv.Stale.final d.st)
+  !(ok d.st.log || ok d.st.log.reverse)
 
 def cfgOf (d : DSt) : Hv.Lin.Cfg :=
   { guard := { resetsIdOnEmpty := d.resets }, releaseInSave := d.kind == "p0" && d.relWhenImm, shape := .guarded }
@@ -43,23 +102,33 @@ def settle (fuel : Nat) (d : DSt) : DSt :=
   match fuel with
   | 0 => d
   | fuel + 1 =>
-    -- a call whose save still has sessions to open and none open: open one
-    match d.ths.find? (fun u => u.wleft > 0 && u.wsid == 0) with
-    | some u =>
-      match stepL d .envStart with
-      | some s' =>
-        let ths := d.ths.map (fun x => if x.tid == u.tid then { x with wsid := s'.g.nextSid } else x)
-        settle fuel { d with s := s', ths := ths }
-      | none => d
-    | none =>
-      match d.ths.find? (fun u => u.wsid != 0 && headSid d.s.g == some u.wsid) with
+    match d.wq with
+    | [] => d
+    | w :: rest =>
+      match d.ths.find? (·.tid == w) with
+      | none => settle fuel { d with wq := rest }
       | some u =>
-        match stepL d (.envRelease u.wsid) with
-        | some s' =>
-          let ths := d.ths.map (fun x => if x.tid == u.tid then { x with wsid := 0, wleft := x.wleft - 1 } else x)
-          settle fuel { d with s := s', ths := ths }
-        | none => d
-      | none => d
+        if !u.wstarted then
+          -- fileWriterHandler collects (and empties) the list of waiting treasures; nothing waiting: nothing to do
+          let n := if d.dirtyW then 2 else 0
+          let ths := d.ths.map (fun x => if x.tid == u.tid then { x with wstarted := true, wleft := n } else x)
+          settle fuel { d with ths := ths, dirtyW := false }
+        else
+        if u.wleft == 0 then settle fuel { d with wq := rest } else
+        if u.wsid == 0 then
+          -- the writer opens its next guard session
+          match stepL d .envStart with
+          | some s' =>
+            let ths := d.ths.map (fun x => if x.tid == u.tid then { x with wsid := s'.g.nextSid } else x)
+            settle fuel { d with s := s', ths := ths }
+          | none => d
+        else if headSid d.s.g == some u.wsid then
+          match stepL d (.envRelease u.wsid) with
+          | some s' =>
+            let ths := d.ths.map (fun x => if x.tid == u.tid then { x with wsid := 0, wleft := x.wleft - 1 } else x)
+            settle fuel { d with s := s', ths := ths }
+          | none => d
+        else d
 
 def showState (d : DSt) (u : Th) : String :=
   let ts := d.s.th u.tid
@@ -70,12 +139,12 @@ def showState (d : DSt) (u : Th) : String :=
   | 3 => "3"
   | 4 => if u.wleft > 0 then "3w" else "4"
   | 5 => match d.s.log.find? (·.tid == u.tid) with
-    | some e => s!"5 r={e.resp}"
+    | some e => s!"5 r={e.resp} by={((d.byOf.find? (·.1 == u.tid)).map (·.2)).getD u.name}"
     | none => "5 r=?"
   | _ => "?"
 
 def showVal (d : DSt) : String :=
-  if d.deleted && !d.resurrected then "absent" else toString d.s.val
+  if sabsent d then "absent" else toString d.s.val
 
 def render (d : DSt) (name : String) (state : String) : String :=
   s!"{name}:{state} q={Driver.showNatList (d.s.g.queue.map (·.1))} c={d.s.g.counter} v={showVal d}"
@@ -93,7 +162,7 @@ def stepThread (d : DSt) (name : String) (fetch : Bool) : DSt × String :=
     match known, fetch with
     | none, true =>
       let u : Th := { name := name, tid := t, fetchedOnly := true, wsid := 0, wleft := 0 }
-      let d' := { d with ths := d.ths ++ [u] }
+      let d' := suntil 1 { d with ths := d.ths ++ [u] } t 1
       (d', render d' name "F")
     | some _, true => (d, "bad-op")
     | _, false =>
@@ -101,28 +170,151 @@ def stepThread (d : DSt) (name : String) (fetch : Bool) : DSt × String :=
       let d := if known.isNone then { d with ths := d.ths ++ [u] } else d
       let ts := d.s.th t
       if ts.pc ≥ 5 || (ts.pc == 4 && u.wleft > 0) then (d, render d name "blocked") else
+      -- repaired body: the fetched object is gone → one aborted session on the orphan's guard, then a new
+      -- object (CreateTreasure takes and releases its guard once) whose guard is observed from now on
+      -- object identity: fetch (if not done) and take the object's guard, re-checking as the code does
+      let objBefore := (d.st.th t).obj
+      let d := if ts.pc == 0 then suntil 6 d t 2 else d
+      -- repaired body: the fetched object was gone → one aborted session on the orphan's guard, then a new
+      -- object (CreateTreasure takes and releases its guard once) whose guard is observed from now on
+      let replaced := ts.pc == 0 && u.fetchedOnly && (d.st.th t).pc == 2 && (d.st.th t).obj != objBefore
+      let d := if replaced then
+          let s0 := { d.s with g := Hv.Guard.init, val := 0 }
+          match Hv.Lin.step (cfgOf d) op s0 .envStart with
+          | some s1 => match Hv.Lin.step (cfgOf d) op s1 (.envRelease s1.g.nextSid) with
+            | some s2 => { d with s := s2, fresh := true, cleared := true }
+            | none => d
+          | none => d
+        else d
       match stepL d (.th t) with
       | none => (d, render d name "blocked")
       | some s' =>
         -- immediate-write mode: the save just released the guard; the chronicler now takes it twice,
         -- unless another call's file write is still in progress (then this one is skipped)
         let imm := (cfgOf d).releaseInSave && ts.pc == 3
-        let busy := d.ths.any (fun x => x.wleft > 0)
         let ths := d.ths.map (fun x => if x.tid == t then
-          { x with fetchedOnly := false, wleft := if imm && !busy then 2 else x.wleft } else x)
+          { x with fetchedOnly := false, wleft := if imm then 2 else x.wleft } else x)
+        -- the same step in the object-identity model (its write and save are one step, at the save)
+        let d := match ts.pc with
+          | 1 => suntil 6 d t 3
+          | 3 => suntil 3 d t (if (cfgOf d).releaseInSave then 5 else 4)   -- the in-save release lets the next call in
+          | 4 => suntil 2 d t 5
+          | _ => d
         let res := d.resurrected || (d.deleted && ts.pc == 3)
-        let d1 := settle 16 { d with s := s', ths := ths, resurrected := res }
+        -- metadata: stamped at the step that follows the grant; read back when the response is built — which is
+        -- behind Save, i.e. in immediate-write mode after the guard was released
+        let lastBy := if ts.pc == 1 then name else d.lastBy
+        let late := d.respAfterSave && (cfgOf d).releaseInSave
+        let byOf := if ts.pc == 4 then d.byOf ++ [(t, if late then lastBy else name)] else d.byOf
+        let d1 := settle 32 { d with s := s', ths := ths, resurrected := res, wq := if imm then d.wq ++ [t] else d.wq,
+                                     dirtyW := d.dirtyW || imm, lastBy := lastBy, byOf := byOf }
         let u1 := (d1.ths.find? (·.tid == t)).getD u
-        let stale := d1.deleted && !d1.cleared && (d1.s.th t).pc == 5
+        let stale := (d1.s.th t).pc == 5 && sbroken d1
+        let lateBy := ts.pc == 4 && late && lastBy != name
         (d1, render d1 name (showState d1 u1) ++ lostFlag d1 ++
-          (if stale then "\t#F:C09-delete-increment-stale-object" else ""))
+          (if stale then "\t#F:C09-delete-increment-stale-object" else "") ++
+          (if lateBy then "\t#F:C09-response-read-after-save" else ""))
+
+/-! ### mode setx: conditional Sets as calls of `Hv.Lin` (value 0 = the key is absent) -/
+
+def sop (d : DSt) : Nat → Int → Int := fun t v =>
+  match d.sops.find? (fun e => e.1 == t) with
+  | some (_, "seta", a) => if v == 0 then a else v
+  | some (_, "setx", a) => if v == 0 then 0 else a
+  | some (_, "del", _) => 0
+  | some (_, "pdel", _) => 0
+  | some (_, "pinc", _) => v + 1
+  | _ => v
+
+def isP (kind : String) : Bool := kind == "pinc" || kind == "pdel"
+
+def scfg (d : DSt) (t : Nat) : Hv.Lin.Cfg :=
+  { guard := { resetsIdOnEmpty := d.resets }, releaseInSave := false,
+    shape := if d.searly.contains t then .readBeforeAcquire else .guarded }
+
+def kindOf (d : DSt) (t : Nat) : String := ((d.sops.find? (fun e => e.1 == t)).map (fun e => e.2.1)).getD ""
+
+def reg (d : DSt) (t : Nat) : Hv.Lin.St := if isP (kindOf d t) then d.sp else d.s
+def setReg (d : DSt) (t : Nat) (s' : Hv.Lin.St) : DSt := if isP (kindOf d t) then { d with sp := s' } else { d with s := s' }
+
+def srun (fuel : Nat) (d : DSt) (t : Nat) : DSt :=
+  match fuel with
+  | 0 => d
+  | fuel + 1 =>
+    if ((reg d t).th t).pc ≥ 5 then d else
+    match Hv.Lin.step (scfg d t) (sop d) (reg d t) (.th t) with
+    | some s' => srun fuel (setReg d t s') t
+    | none => d
+
+def sstatus (d : DSt) (kind : String) (t : Nat) : String :=
+  let loc := ((reg d t).th t).loc
+  match kind with
+  | "seta" => if loc == 0 then "WROTE" else "UNCHANGED"
+  | "setx" => if loc == 0 then "NOT_FOUND" else "WROTE"
+  | "pinc" => if loc == 0 then "CREATED" else "PATCHED"
+  | _ => if loc == 0 then "NOT_FOUND" else "DELETED"
+
+/-- the log no longer replays as a sequential history: some response is not what the Spec returns there -/
+def sflag (d : DSt) : String :=
+  if (Hv.Lin.replay (sop d) 0 d.s.log).isNone || (Hv.Lin.replay (sop d) 0 d.sp.log).isNone then "\t#F:C09-read-outside-guard" else ""
+
+def ssync (d : DSt) (kind : String) (a : Int) : DSt × String :=
+  let t := d.snext
+  let d1 := srun 8 { d with sops := d.sops ++ [(t, kind, a)], snext := t + 1 } t
+  (d1, s!"{kind} {sstatus d1 kind t}" ++ sflag d1)
+
+def sstep (d : DSt) (ws : List String) : DSt × String :=
+  match ws with
+  | ["go", n] =>
+    match d.sparked.find? (fun e => e.1 == n) with
+    | none => (d, "bad-op")
+    | some (_, t) =>
+      let d1 := srun 8 { d with sparked := d.sparked.filter (fun e => e.1 != n) } t
+      (d1, s!"{n} done {sstatus d1 (kindOf d t) t}" ++ sflag d1)
+  | ["del"] => ssync d "del" 0
+  | ["pdel"] => ssync d "pdel" 0
+  | ["pinc"] => ssync d "pinc" 0
+  | ["get"] => (d, if d.s.val == 0 then "get v=absent" else s!"get v={d.s.val}")
+  | ["pget"] => (d, if d.sp.val == 0 then "pget n=absent" else s!"pget n={d.sp.val}")
+  | [kind, v] =>
+    if kind != "seta" && kind != "setx" then (d, "bad-op") else
+    match v.toInt? with
+    | none => (d, "bad-op")
+    | some a => ssync d kind a
+  | ["spawn", n, "pinc"] =>
+    match tidOf n with
+    | some t =>
+      if d.sops.any (fun e => e.1 == t) then (d, "bad-op") else
+      let d0 := { d with sops := d.sops ++ [(t, "pinc", 0)] }
+      -- parked after the fetch: with the defective shape a call that found no record has already decided "new"
+      let d1 := if !d.patchGuarded && d.sp.val == 0 then srun 1 { d0 with searly := d0.searly ++ [t] } t else d0
+      ({ d1 with sparked := d1.sparked ++ [(n, t)] }, s!"{n}@fetched")
+    | none => (d, "bad-op")
+  | ["spawn", n, kind, v] =>
+    match tidOf n, v.toInt? with
+    | some t, some a =>
+      if (kind != "seta" && kind != "setx") || d.sops.any (fun e => e.1 == t) then (d, "bad-op") else
+      let d0 := { d with sops := d.sops ++ [(t, kind, a)] }
+      -- the unguarded tests: an outcome that needs no write is answered right away
+      let early := (kind == "seta" && d.s.val != 0) || (kind == "setx" && d.s.val == 0)
+      if early then
+        let d1 := srun 8 d0 t
+        (d1, s!"{n} done {sstatus d1 kind t}" ++ sflag d1)
+      else
+        -- otherwise the call parks after the tests; with the defective shape its decision is already taken
+        let d1 := if d.setUnderGuard then d0 else srun 1 { d0 with searly := d0.searly ++ [t] } t
+        ({ d1 with sparked := d1.sparked ++ [(n, t)] }, s!"{n}@tested")
+    | _, _ => (d, "bad-op")
+  | _ => (d, "bad-op")
 
 def step (d : DSt) (line : String) : DSt × String :=
   match words line with
   | ["case", _, mode, kind] =>
-    ({ d with mode := mode, kind := kind, s := Hv.Lin.init 5, ths := [], deleted := false, resurrected := false,
-              cleared := false }, line)
+    ({ d with mode := mode, kind := kind, wq := [], dirtyW := false, lastBy := "", byOf := [], st := Hv.Stale.init 5, ndel := 0, s := Hv.Lin.init (if mode == "setx" then 0 else 5), ths := [], deleted := false,
+              resurrected := false, cleared := false, fresh := false, sops := [], sparked := [], snext := 10,
+              sp := Hv.Lin.init 0, searly := [] }, line)
   | ws =>
+    if d.mode == "setx" then sstep d ws else
     if d.mode == "sched" then
       match ws with
       | ["step", n] => stepThread d n false
@@ -137,11 +329,13 @@ def step (d : DSt) (line : String) : DSt × String :=
           | none => (d, "bad-op")
           | some s2 =>
             let cleared := d.kind == "p0"
-            let d' := { d with s := { s2 with val := if cleared then 0 else s2.val }, deleted := true, cleared := cleared }
-            (d', "del DELETED v=absent")
+            let dt := 20 + d.ndel
+            let d' := suntil 6 { d with s := { s2 with val := if cleared then 0 else s2.val }, deleted := true, cleared := cleared,
+                                        ndel := d.ndel + 1 } dt 5
+            (d', s!"del DELETED v={showVal d'}")
       | ["reload"] =>
         if d.kind == "m" then (d, "reload v=absent")
-        else if d.kind == "p0" && d.deleted && d.resurrected then
+        else if d.kind == "p0" && d.deleted && d.resurrected && !d.fresh then
           -- the orphan still carries DeletedAt: the chronicler wrote a delete entry for the acknowledged increment
           (d, "reload v=absent\t#F:C09-delete-increment-stale-object")
         else (d, s!"reload v={showVal d}")
@@ -166,7 +360,10 @@ def run (args : List String) : IO UInt32 := do
   let kv := parseArgs args
   lineLoop step { resets := arg kv "resetsIdOnEmpty" == "yes", relWhenImm := arg kv "releasesGuardWhenImmediate" != "no",
                   mode := "", kind := "", s := Hv.Lin.init 5, ths := [], deleted := false, resurrected := false,
-                  cleared := false }
+                  cleared := false, recheck := arg kv "rechecksObjectUnderGuard" == "yes", fresh := false,
+                  setUnderGuard := arg kv "setTestsExistenceUnderGuard" != "no",
+                  patchGuarded := arg kv "bodyShape" != "readBeforeAcquire",
+                  respAfterSave := arg kv "bodyShape" == "respAfterSave" }
   return 0
 
 end Driver.C09
